@@ -493,6 +493,13 @@ func (w *world) opStream(tk int, ref pdf.Reference) {
 		w.s.Yield("consumer between reads")
 	}
 	rc.Close()
+	if len(data)%3 == 0 {
+		// a deferred Close next to an explicit one: the second call must not
+		// disturb streams that other tasks have open (the simulated pool
+		// refuses an object that is put back twice)
+		w.s.Yield("before second Close")
+		rc.Close()
+	}
 	w.note(tk, "stream(%s) %d bytes", ref, len(data))
 	if !bytes.Equal(data, w.d.Bodies[ref]) {
 		w.fail("sequential-equivalence", map[string]string{"op": "stream"}, "concurrent DecodeStream(%s) yields %d bytes differing from the %d bytes written (first difference at %d)", ref, len(data), len(w.d.Bodies[ref]), firstDiff(data, w.d.Bodies[ref]))
